@@ -79,6 +79,33 @@ DIRECTED = [
     "VERSION 5.4 ; NAMESCASESENSITIVE ON ; MACRO m END m END LIBRARY MACRO n",
 ]
 
+SWEEP_VERSIONS = [None, "5", "5.0", "5.1", "5.2", "5.3", "5.4", "5.40", "5.5", "5.50", "5.6", "5.60", "5.7", "5.8", "5.80"]
+SWEEP_STATEMENTS = [
+    # gated by the reader and the writer (LEF <= 5.4)
+    "NAMESCASESENSITIVE ON ;", "NAMESCASESENSITIVE OFF ;", "NOWIREEXTENSIONATPIN ON ;", "NOWIREEXTENSIONATPIN OFF ;",
+    "MACRO m SOURCE USER ; END m", "MACRO m SOURCE NETLIST ; END m", "MACRO m SOURCE DIST ; END m", "MACRO m SOURCE TIMING ; END m",
+    "MACRO m SOURCE GENERATE ; END m", "MACRO m SOURCE BLOCK ; END m",
+    "MACRO m SOURCE USER ; END m MACRO n END n", "NAMESCASESENSITIVE ON ; NOWIREEXTENSIONATPIN OFF ; MACRO m SOURCE USER ; END m",
+    # statements of later LEF versions that lef21 accepts at any version (no gate in read.rs / write.rs): must stay writable
+    "FIXEDMASK ;", "MACRO m FIXEDMASK ; END m", "USEMINSPACING OBS ON ;", "CLEARANCEMEASURE MAXXY ;", "MANUFACTURINGGRID 0.005 ;",
+    "MACRO m OBS LAYER l ; RECT MASK 1 0 0 1 1 ; END END m", "MACRO m PIN a ANTENNAMODEL OXIDE1 ; ANTENNAGATEAREA 1 ; END a END m",
+    'MACRO m PIN a NETEXPR "n e" ; SUPPLYSENSITIVITY s ; END a END m', "MACRO m DENSITY LAYER l ; RECT 0 0 1 1 50 ; END END m",
+    "MACRO m OBS LAYER l EXCEPTPGNET ; END END m", "PROPERTYDEFINITIONS MACRO a STRING ; END PROPERTYDEFINITIONS", 'BEGINEXT "t" x ENDEXT',
+    "VIA v VIARULE r ; CUTSIZE 1 1 ; LAYERS a b c ; CUTSPACING 1 1 ; ENCLOSURE 1 2 3 4 ; END v", "SITE s CLASS CORE ; SIZE 1 BY 1 ; END s",
+    "UNITS DATABASE MICRONS 1000 ; END UNITS", "",
+]
+
+def version_gate_sweep():
+    out = []
+    for v in SWEEP_VERSIONS:
+        head = "" if v is None else "VERSION %s ; " % v
+        for st in SWEEP_STATEMENTS:
+            for end in ("", " END LIBRARY"):
+                out.append((head + st + end).strip())
+                if v is not None and st:
+                    out.append((st + " " + head.strip() + end).strip())       # the statement BEFORE the VERSION statement
+    return out
+
 def tokens(s):
     return [(m.start(), m.end()) for m in TOKRE.finditer(s)]
 
@@ -115,6 +142,10 @@ def gen_cases(chk):
     for s in DIRECTED:
         if add("directed", s):
             base.append(s)
+    # exhaustive sweep of the version gates (read.rs / write.rs: every test of `lef_version`): every version spelling x every
+    # version-dependent statement x END LIBRARY present or not; whatever the reader accepts must be written and read back
+    for s in version_gate_sweep():
+        add("version_gate_sweep", s)
     # single-token faults; only the texts the reader still accepts become cases of the property
     nm = 3 if quick else 10
     for s in base:
